@@ -348,3 +348,14 @@ func ReadJSON(path string, v any) {
 
 // Exit terminates the process with the given code.
 func Exit(code int) { os.Exit(code) }
+
+// ReadFile returns the content of a file (empty on error).
+func ReadFile(path string) string {
+	b, _ := os.ReadFile(path)
+	return string(b)
+}
+
+// A harness that runs both a graph search and a schedule exploration tells its workers which
+// protocol to speak through the VERIF_WORKER_MODE environment variable.
+func WorkerMode() string { return os.Getenv("VERIF_WORKER_MODE") }
+func SetWorkerMode(m string) { os.Setenv("VERIF_WORKER_MODE", m) }
